@@ -18,6 +18,7 @@ import (
 	"github.com/go-openapi/loads"
 	"github.com/go-openapi/runtime"
 	"github.com/go-openapi/runtime/middleware"
+	"github.com/go-openapi/runtime/middleware/header"
 	"github.com/go-openapi/runtime/middleware/untyped"
 	"github.com/go-openapi/runtime/security"
 )
@@ -139,6 +140,9 @@ func (c08) Rule() string {
 	return "exhaustive matrix {HEAD,GET,POST} x declared codes {200,201,204,default-only,several,non-2xx+2xx,none} x handler outcomes " +
 		"{value,nil,errorResp(0/404),NotImplemented,custom Responder,error(coded/plain/composite)} x produces shapes (empty, with parameters, several, default included) x {no Accept, Accept}; " +
 		"random: produces lists with parameters/case variants/duplicates, default producer json/none/custom, registrations complete/partial/raw, Accept headers from a range grammar, " +
+		"Accept headers that are PRESENT and name no media range (empty value, blanks, separators only, several such lines, values the parser gives up on at the first byte; category empty-accept): enumerated over " +
+		"codes x handler outcomes x produces shapes through the handler and a direct Respond, with basic auth, for routing errors, randomly one Accept header in nine, and in histories where one operation is asked " +
+		"again with the header absent / present without a range / with ranges (every ordered pair); " +
 		"basic auth: the four authenticator constructors (BasicAuthRealm, BasicAuthRealmCtx, BasicAuth, BasicAuthCtx) x realms (quotes, backslashes, empty) x credentials " +
 		"{no header, empty header, refused, accepted, Basic scheme without usable credentials (scheme only, not base64, no colon, bad padding, stray characters), other schemes (Bearer, Digest, ...), " +
 		"usable credentials in unusual dress (scheme case, empty user or password)} - exhaustively over a fixed table and randomly, through the handler and through a direct Respond after the authenticator ran " +
@@ -1072,6 +1076,19 @@ func c08HistCategory(in c08In, obs c08Obs) (string, bool) {
 	if swaps > 0 || len(in.RAfter) > 0 {
 		cat += fmt.Sprintf("/responder-a%d-swaps%d", len(in.RAfter), swaps)
 	}
+	emptyAcc, otherAcc := false, false
+	for _, st := range in.Steps {
+		if c08NoRange(st.Lines) {
+			emptyAcc = true
+		} else {
+			otherAcc = true
+		}
+	}
+	if emptyAcc && otherAcc {
+		cat += "/empty-accept-among-others"
+	} else if emptyAcc {
+		cat += "/empty-accept"
+	}
 	return cat, len(in.Steps) >= 2 || maxAlts >= 2 || maxSchemes >= 2
 }
 
@@ -1107,6 +1124,9 @@ func (c08) Category(inAny any, obsAny any) (string, bool) {
 	acc := "no-accept"
 	if len(in.Lines) > 0 {
 		acc = "accept"
+		if c08NoRange(in.Lines) {
+			acc = "empty-accept"
+		}
 	}
 	outcome := "answered"
 	switch {
@@ -1356,6 +1376,34 @@ func c08EnumerateHist() []any {
 			out = append(out, c08HistStatus(ids, order, []string{"value", "value", "nil", "resp:0"}[k%4]))
 		}
 	}
+	// one operation asked again with another kind of Accept header: absent / present without a media range / naming the
+	// last produced type / naming nothing produced, every ordered pair and some triples, x the ways a header can be empty
+	{
+		orders := [][]int{{0, 1}, {1, 0}, {1, 2}, {2, 1}, {1, 3}, {3, 1}, {1, 1}, {0, 1, 2}, {2, 0, 1}, {1, 2, 0}, {3, 1, 0}, {1, 0, 1}}
+		k := 0
+		for _, order := range orders {
+			for pi, ps := range c08ProduceSets[1:] {
+				k++
+				in := c08In{Kind: "hist", Defaults: "json"}
+				in.Ops = []c08Op{{Method: c08Methods[k%3], Path: "/x", ID: []string{"", "op"}[k%2], Codes: [][]int{{200}, {201}, {200, 0}}[pi], Produces: toBs(ps)},
+					{Method: "DELETE", Path: "/x", Codes: []int{204}, Produces: toBs(ps)}}
+				c08HistRegister(&in)
+				for j, o := range order {
+					st := c08Step{Op: 0, Data: []string{"value", "value", "err:404"}[(k+j)%3]}
+					switch o {
+					case 1:
+						st.Lines = append([]Bs{}, c08EmptyAccepts[(k+j)%len(c08EmptyAccepts)]...)
+					case 2:
+						st.Lines = []Bs{Bs(strings.SplitN(ps[len(ps)-1], ";", 2)[0] + ";q=0.5, */*;q=0.1")}
+					case 3:
+						st.Lines = []Bs{"image/png"}
+					}
+					in.Steps = append(in.Steps, st)
+				}
+				out = append(out, in)
+			}
+		}
+	}
 	// security requirements: every shape x what the request presents to the basic scheme x to the first api-key scheme
 	// x the handler's outcome, one request each (the single-call cases of requirements with several alternatives)
 	n := 0
@@ -1373,6 +1421,9 @@ func c08EnumerateHist() []any {
 					st := c08Step{Op: 0, Attempt: b.Attempt, Authz: b.Authz, Data: data, Keys: map[string]string{"k1": k1, "k2": []string{"", "bad403", "good", ""}[n%4]}}
 					if n%5 == 0 {
 						st.Lines = []Bs{"text/plain;q=0.9, */*;q=0.1"}
+					}
+					if n%5 == 2 {
+						st.Lines = append([]Bs{}, c08EmptyAccepts[(n/5)%len(c08EmptyAccepts)]...)
 					}
 					in.Steps = []c08Step{st}
 					out = append(out, in)
@@ -1437,6 +1488,21 @@ func c08GenHist(r *rand.Rand) c08In {
 		st.Lines = c08Accept(r, in.Ops[st.Op].Produces)
 		if r.Intn(3) != 0 {
 			st.Lines = nil
+		}
+		if i > 0 && r.Intn(3) == 0 {
+			// the same operation as the request before, another kind of Accept header: absent / present without a media range / with ranges
+			prev := in.Steps[i-1]
+			st.Op = prev.Op
+			switch {
+			case len(prev.Lines) == 0:
+				st.Lines = c08EmptyAccept(r)
+			case c08NoRange(prev.Lines) && r.Intn(2) == 0:
+				st.Lines = nil
+			case c08NoRange(prev.Lines):
+				st.Lines = []Bs{"image/png;q=0.2, */*;q=0.1"}
+			default:
+				st.Lines = c08EmptyAccept(r)
+			}
 		}
 		if len(in.Ops[st.Op].Security) > 0 || r.Intn(4) == 0 {
 			var a c08In
@@ -1533,6 +1599,9 @@ func (c08) Enumerate(tier string) []any {
 					if n%4 == 0 {
 						in.Lines = []Bs{"text/plain;q=0.9, */*;q=0.1"}
 					}
+					if n%8 == 3 || n%8 == 6 {
+						in.Lines = append([]Bs{}, c08EmptyAccepts[(n/8)%len(c08EmptyAccepts)]...)
+					}
 					if kind == "serve" {
 						in.Auth = "basic"
 					} else {
@@ -1567,6 +1636,28 @@ func (c08) Enumerate(tier string) []any {
 			}
 		}
 	}
+	// an Accept header that is present and names no media range: codes x handler outcomes x produces shapes, the method and
+	// the way the header is empty rotating; through the handler, and through a direct Respond with the route's produces
+	n = 0
+	for _, cs := range c08CodeSets[:7] {
+		for _, d := range c08DataKinds {
+			for _, ps := range c08ProduceSets {
+				n++
+				in := c08In{Kind: "serve", Defaults: "json", Method: c08Methods[n%3], Codes: cs, Data: d, Produces: toBs(ps)}
+				for _, p := range ps {
+					in.Register = append(in.Register, Bs(strings.SplitN(p, ";", 2)[0]))
+				}
+				in.Lines = append([]Bs{}, c08EmptyAccepts[n%len(c08EmptyAccepts)]...)
+				if n%4 == 1 {
+					in.Kind, in.Route, in.Arg = "direct", []string{"real", "nil", "noop"}[(n/4)%3], toBs(ps)
+				}
+				if n%9 == 5 {
+					in.Defaults, in.Default = "custom", "text/plain"
+				}
+				out = append(out, in)
+			}
+		}
+	}
 	return out
 }
 
@@ -1598,6 +1689,11 @@ func c08RoutingLines(r *rand.Rand, in c08In) []Bs {
 		l += []string{"", "", ", */*;q=0.1", ",image/png", ", application/json;q=0.2", ", text/*;q=0.05"}[r.Intn(6)]
 		if c08OrderFree([]Bs{Bs(l)}, all, def) {
 			return []Bs{Bs(l)}
+		}
+	}
+	if r.Intn(6) == 0 { // present, without a media range: order-free where an absent header is
+		if l := c08EmptyAccept(r); c08OrderFree(l, all, def) {
+			return l
 		}
 	}
 	for try := 0; try < 20; try++ {
@@ -1659,7 +1755,7 @@ func c08EnumerateRouting() []any {
 				base.Data = "err:404"
 			}
 			all := c08AllProduces(base)
-			accepts := [][]Bs{nil, {"*/*"}, {"image/png"}, {"image/png;q=0.9, text/html"}}
+			accepts := [][]Bs{nil, {"*/*"}, {"image/png"}, {"image/png;q=0.9, text/html"}, {""}, {" "}, {","}, {"", ""}, {" , "}, {"\t"}}
 			for _, p := range all {
 				b := strings.SplitN(string(p), ";", 2)[0]
 				accepts = append(accepts, []Bs{Bs(b)}, []Bs{Bs(b + ";q=0.8, */*;q=0.1")}, []Bs{Bs("image/png, " + b + ";q=0.3")})
@@ -1709,12 +1805,45 @@ func c08Produces(r *rand.Rand) []Bs {
 	return out
 }
 
+// c08EmptyAccepts: Accept headers that are PRESENT and name no media range: empty values (a client or proxy sending
+// the bare field name), blanks, separators only, several such lines, and values the parser gives up on at the first
+// byte (it does not skip leading blanks; a parameter without a type; a separator in front). Such a header constrains
+// nothing: the negotiation is that of an absent header. What each yields is decided by the model's parser (C07) in the
+// case and by the real header.ParseAccept in the run, not by this table.
+var c08EmptyAccepts = [][]Bs{
+	{""}, {" "}, {","}, {"", ""}, {"\t"}, {" , "}, {", ,"}, {"  "}, {",,"}, {"", " ", ""}, {";q=0.5"}, {"/"}, {" ", ","}, {",", ""},
+}
+
+var c08EmptyFragments = []string{"", "", " ", "\t", ",", ", ,", " , ", "  ", ",,", ";q=0.5", "/", ";", " \t ", ",\t,"}
+
+// c08EmptyAccept: one to three lines, none of which yields a media range.
+func c08EmptyAccept(r *rand.Rand) []Bs {
+	if r.Intn(2) == 0 {
+		return append([]Bs{}, c08EmptyAccepts[r.Intn(len(c08EmptyAccepts))]...)
+	}
+	var lines []Bs
+	for n := 1 + r.Intn(6)/4 + r.Intn(6)/5; n > 0; n-- {
+		lines = append(lines, Bs(c08EmptyFragments[r.Intn(len(c08EmptyFragments))]))
+	}
+	return lines
+}
+
+// c08NoRange: the Accept header is present (at least one line) and the real parser finds no media range in it.
+func c08NoRange(lines []Bs) bool {
+	if len(lines) == 0 {
+		return false
+	}
+	return len(header.ParseAccept(http.Header{"Accept": bsList(lines)}, "Accept")) == 0
+}
+
 func c08Accept(r *rand.Rand, produces []Bs) []Bs {
-	switch r.Intn(8) {
+	switch r.Intn(9) {
 	case 0, 1:
 		return nil
 	case 2:
 		return []Bs{"*/*"}
+	case 3:
+		return c08EmptyAccept(r)
 	}
 	qs := []string{"", "", ";q=0.5", ";q=0.8", ";q=0", ";q=1", "; q=0.5", ";q=0.9;ext=1", ";level=1;q=0.7", ";q=0.300"}
 	ws := []string{"", " ", "  ", "\t"}
